@@ -4,8 +4,18 @@
 From Coq Require Extraction.
 From Coq Require Import ExtrOcamlBasic.
 From CFDP Require Import Base.Prelude Model.Segments.
+From CFDP Require Import Model.Pdu Model.PduUser Model.CodecBase Model.Codec Model.CodecUser.
 
 Extraction Language OCaml.
 Extraction "model.ml"
   Segments.merge_seg Segments.gaps Segments.is_complete Segments.seg_len
-  Segments.seg_end Segments.end_or_0.
+  Segments.seg_end Segments.end_or_0
+  (* codec (C05, C06) *)
+  Codec.pdu_encode Codec.pdu_decode Codec.payload_encoded_len Codec.pdu_encoded_len Codec.fix_len
+  Codec.header_encoded_len Codec.fs_status_u8 Codec.fs_get_status
+  CodecUser.uo_encode CodecUser.uo_decode CodecUser.uo_encoded_len
+  CodecUser.report_encode CodecUser.report_decode
+  Enums.TraceControl_to_u8 Enums.TraceControl_from_u8 Enums.ListingResponseCode_to_u8
+  Enums.ListingResponseCode_from_u8 Enums.TransactionState_to_u8 Enums.TransactionState_from_u8
+  Enums.RecordContinuationState_to_u8 Enums.RecordContinuationState_from_u8
+  .
